@@ -996,6 +996,8 @@ class Engine:
             return truth(args[0]) if args else False
         if cls is range:
             return self.make_range(*args)
+        if cls is reversed:
+            return list(reversed(list(self.iterate(args[0]))))
         if cls in (tuple, list):
             v = list(self.iterate(args[0])) if args else []
             return tuple(v) if cls is tuple else self.register(v)
